@@ -74,6 +74,7 @@ def collect(c, registry=None, timeout_ms=10000):
             I.calls = models
             I.loop_specs = dict(c.loops)
             I.loop_ordinals = ordinals
+            I.local_defs = {n.name: n for n in ast.walk(fn) if isinstance(n, ast.FunctionDef) and n is not fn}
             I.func_lineno = fn.lineno
             I.relpath, I.qualname = c.relpath, c.qualname
             I.bounded_used = False
